@@ -12,15 +12,19 @@ Require Import TT.Proofs.TypeParseProofs TT.Proofs.RenderProofs TT.Proofs.C05Pro
 Require Import TT.Proofs.C05PrefixProofs TT.Proofs.C05OracleProofs.
 Require TT.Model.C10Zod TT.Spec.C10Check TT.Proofs.C10Depth.
 Require Import TT.Proofs.C05ZodProofs.
+Require Import TT.Spec.TsLex TT.Proofs.C18RelProofs TT.Model.C18Decl TT.Proofs.C18DeclProofs.
+Require TT.Proofs.C18TokProofs.
 Import ListNotations.
 Local Open Scope string_scope.
 
 (* Not asserted as a whole: substitution (both clauses of the oracle) at every site in both modes.
-   After the repairs no class of C18 is left (kf_C18 is constantly false). PROVED for all inputs: the
-   frame clause at every site (C18_frame) and the absolute clause at the 8 site x mode pairs whose text is
-   a TypeScript type (C18_subst_ts_sites, premise: outside C05's remaining classes). The relational
-   token-level clause where a key is mentioned, and the two Zod schema sites, rest on bounded sweeps of
-   the model (C18_sweep_depth1_partial; depth 2 in Proofs/C18Sweep2.v) and the run-time oracle. *)
+   After the repairs no class of C18 is left at the sites (kf_C18 is constantly false). PROVED for all inputs:
+   the frame clause at every site (C18_frame); the absolute clause at all ten site x mode pairs
+   (C18_subst_all_sites, C10 domain, no parsing hypothesis); the relational clause c18_ok at the four pairs
+   whose text is the unqualified TypeScript type (C18_relational_unqualified_sites, round 7).
+   Remaining on bounded sweeps of the model (C18_sweep_depth1_partial; depth 2 in Proofs/C18Sweep2.v) and
+   the run-time oracle: the relational clause at return / event payload sites (qualified text), at the two
+   Zod schema sites, and for generic keys such as DateTime<Utc>. *)
 Definition C18_subst_full_statement : Prop :=
   forall (s : site) (md : mode) (m : mapping) (t : rty),
     mapping_ok m -> dom_m m t = true -> kf_C18 s md m t = false ->
@@ -131,6 +135,57 @@ Theorem C18_map_key_absolute :
   c18_full_ok SField MNone table18 w18_key (L "Record<string, string>") (L "Record<string, string>") = false.
 Proof. exact map_key_absolute. Qed.
 
+(* ---- deepening round 7 ---- *)
+(* the substitution lemma of the renderer at token level, for ALL structures of C10's domain and all tables
+   with targets string / number / boolean whose keys are legal names that are not taken (plain identifiers,
+   not a primitive, not Record / null / ...): the text of the substituted structure lexes (specification lexer
+   lex_module, no lexing error) to the tokens of the text of the structure itself in which every types.N / N
+   is replaced by M (subst_tokens of the oracle, guards included) *)
+Theorem C18_render_subst_tokens : forall m ts,
+  C18TokProofs.keys_ok m = true -> C10Zod.map_ok m = true -> C10Zod.dom ts = true ->
+  lex_module (render (msubst m ts)) = subst_tokens true m (lex_module (render_m [] ts)) /\ has_err (lex_module (render (msubst m ts))) = false.
+Proof. exact render_subst_tokens. Qed.
+
+(* the relational clause of the oracle (c18_ok, all three conjuncts and the byte-equality branch) for ALL
+   types at the sites whose text is the unqualified TypeScript type: parameter and field in plain mode,
+   channel in both modes. noschema: no unmapped project type is literally called NSchema for a key N
+   (the oracle's no-longer-referred-to test also looks for NSchema). *)
+Theorem C18_relational_unqualified_sites : forall m t s md,
+  C18TokProofs.keys_ok m = true -> C10Zod.map_ok m = true -> dom_m m t = true ->
+  C10Zod.dom (sem t) = true -> C18TokProofs.noschema m (sem t) = true -> unq_site s md = true ->
+  exists w wo, emit_type s md m t = Some w /\ emit_type s md [] t = Some wo /\
+    (mentions m t = true -> lex_module w = subst_tokens true m (lex_module wo)) /\
+    c18_ok true m t w wo = true.
+Proof. exact relational_unq. Qed.
+
+(* N is never declared: on the declaration model (Model/C18Decl.v: the set of project types types.ts exports,
+   TypeCollector::collect_used_types with the nested discovery), for every project, every table and every set
+   of sites, outside the recorded class C18-4 (a project struct or enum whose own name is a key) *)
+Theorem C18_never_declared : forall m all sites, kf18_own_name_mapped m all = false ->
+  forall n tg, lookup m n = Some tg -> ~ In n (declared m all sites).
+Proof. exact never_declared. Qed.
+(* nothing else: the table never changes the set of declarations *)
+Theorem C18_declared_frame : forall m all sites, declared m all sites = declared [] all sites.
+Proof. exact declared_frame. Qed.
+(* inside the class the defect is general: a project struct or enum that a site names is declared whatever
+   the table says (C18-4), with the computed witness struct Timestamp as a parameter, Timestamp -> string:
+   rendered string, still declared, in Zod mode with TimestampSchema *)
+Theorem C18_mapped_struct_declared : forall m all sites n,
+  In n (flat_map refs sites) -> In n (map s_name all) -> In n (declared m all sites).
+Proof. exact direct_struct_declared. Qed.
+Theorem C18_never_declared_refuted :
+  kf18_own_name_mapped w18_decl_table w18_decl_all = true /\
+  lookup w18_decl_table (L "Timestamp") = Some (L "string") /\
+  render_m w18_decl_table (TCustom (L "Timestamp")) = L "string" /\
+  declared w18_decl_table w18_decl_all w18_decl_sites = [L "Timestamp"] /\
+  declared_ts true w18_decl_table w18_decl_all w18_decl_sites = [L "Timestamp"; L "TimestampSchema"] /\
+  c18_decl_ok w18_decl_table (declared w18_decl_table w18_decl_all w18_decl_sites) = false.
+Proof. exact declared_refuted. Qed.
+(* the run-time oracle of the clause is the clause *)
+Theorem C18_decl_oracle_exact : forall m names, c18_decl_ok m names = true <->
+  forall n tg, In (n, tg) m -> ~ In n names /\ ~ In (n ++ L "Schema")%list names.
+Proof. exact decl_oracle_exact. Qed.
+
 (* ---- premises are satisfiable on non-trivial inputs ---- *)
 Definition ex18 : rty :=
   RPath (L "HashMap") [RPath (L "String") [];
@@ -157,6 +212,23 @@ Example C18_sweep_premises :
   exists t, In t spines18_1 /\ tts t = L "Option<Uuid>" /\ kf_C18 SReturn MZod table18 t = false.
 Proof. exact sweep18_premises_example. Qed.
 
+Definition table18r : mapping := [(L "PathBuf", L "string"); (L "Uuid", L "number")].
+Definition ex18r : rty :=
+  RPath (L "HashMap") [RPath (L "String") [];
+    RPath (L "Vec") [RTuple [RPath (L "Option") [RPath (L "PathBuf") []]; RPath (L "Uuid") []; RPath (L "User") []]]].
+Example C18_relational_premises :
+  C18TokProofs.keys_ok table18r = true /\ C10Zod.map_ok table18r = true /\ dom_m table18r ex18r = true /\
+  C10Zod.dom (sem ex18r) = true /\ C18TokProofs.noschema table18r (sem ex18r) = true /\ unq_site SChannel MZod = true /\
+  mentions table18r ex18r = true /\
+  emit_type SChannel MZod table18r ex18r = Some (L "Record<string, [string | null, number, User][]>") /\
+  emit_type SChannel MZod [] ex18r = Some (L "Record<string, [PathBuf | null, Uuid, User][]>").
+Proof. vm_compute. repeat split; reflexivity. Qed.
+Example C18_never_declared_premises :
+  kf18_own_name_mapped [(L "Uuid", L "number")] ex18_decl_all = false /\
+  declared [(L "Uuid", L "number")] ex18_decl_all [TOpt (TCustom (L "Holder"))] = [L "Holder"; L "Leaf"] /\
+  c18_decl_ok [(L "Uuid", L "number")] (declared [(L "Uuid", L "number")] ex18_decl_all [TOpt (TCustom (L "Holder"))]) = true.
+Proof. exact never_declared_example. Qed.
+
 Print Assumptions C18_frame.
 Print Assumptions C18_frame_type.
 Print Assumptions C18_render_subst.
@@ -171,3 +243,10 @@ Print Assumptions C18_prefix_on_target_repaired.
 Print Assumptions C18_tuple_comma_repaired.
 Print Assumptions C18_result_comma_repaired.
 Print Assumptions C18_map_key_absolute.
+Print Assumptions C18_render_subst_tokens.
+Print Assumptions C18_relational_unqualified_sites.
+Print Assumptions C18_never_declared.
+Print Assumptions C18_declared_frame.
+Print Assumptions C18_mapped_struct_declared.
+Print Assumptions C18_never_declared_refuted.
+Print Assumptions C18_decl_oracle_exact.
